@@ -400,7 +400,10 @@ def evalf(a: tuple, env: dict[str, float]) -> float:
 # ----------------------------------------------------------------------------- z3
 def nums_of(a: tuple, acc: list) -> None:
     if a[0] == 'num':
-        acc.append(float(a[1]))
+        try:
+            acc.append(float(a[1]))
+        except OverflowError:      # integer beyond the float range: kept exact
+            pass
     elif a[0] != 'var':
         for c in a[1:]:
             if isinstance(c, tuple):
@@ -436,9 +439,13 @@ class Z3Ctx:
         return self.vars[n]
 
     def num(self, v: Any) -> Any:
-        r = self.rep.get(float(v), float(v))
-        if isinstance(v, int) and float(v) == r:
-            return self.z3.RealVal(v)
+        try:
+            fv = float(v)
+        except OverflowError:
+            return self.z3.RealVal(int(v))
+        if fv != fv or fv in (float('inf'), float('-inf')):
+            return self.z3.Real('nonfinite_%d' % len(self.vars))     # never equal to anything else
+        r = self.rep.get(fv, fv)
         f = Fraction(r)
         return self.z3.RealVal(f.numerator) / self.z3.RealVal(f.denominator) if f.denominator != 1 \
             else self.z3.RealVal(f.numerator)
@@ -456,7 +463,7 @@ class Z3Ctx:
         x = self.tr(a[1])
         if k == 'pow':
             e = a[2]
-            if e[0] == 'num' and float(e[1]) == int(e[1]) and 0 <= int(e[1]) <= 81:
+            if e[0] == 'num' and abs(e[1]) <= 81 and e[1] == int(e[1]) and e[1] >= 0:
                 r = self.z3.RealVal(1)
                 for _ in range(int(e[1])):
                     r = r * x
